@@ -202,7 +202,11 @@ scalar_t hinge_wlearner_t::do_fit(const dataset_t& dataset, const indices_t& sam
                           if (ivalue1.first < ivalue2.first)
                           {
                               // update the parameters if a better feature
-                              const auto threshold = 0.5 * (ivalue1.first + ivalue2.first);
+                              auto threshold = 0.5 * (ivalue1.first + ivalue2.first);
+                              if (!(ivalue1.first < threshold && threshold <= ivalue2.first))
+                              {
+                                  threshold = ivalue2.first;
+                              }
 
                               // ... try the left hinge
                               const auto score_neg = cache.score_neg(threshold, criterion, missing_rss, missing_cnt);
